@@ -90,6 +90,7 @@ def run(F, rep, tier):
     key_injective(rep, lua)
     keyed_table_size(rep, lua, mods)
     externals_fully_typed(F, rep, mods)
+    declared_purity(rep, lua, mods)
     # abs / min / max / clamp / sign touch their arguments only through comparisons and negation: decided on every order cell
     import ordeval
     ordeval.decide(F, rep, lua)
@@ -97,7 +98,16 @@ def run(F, rep, tier):
     maybe_shape(F, rep, lua)
     index_base(rep, lua)
     index_bounds(rep, lua)
+    random_interval(rep, lua)
     global_leak(rep, lua)
+
+
+def purity_decl(F, rep):
+    lua = Lua(F.read("sylt-compiler/src/preamble.lua"))
+    mods = {}
+    for m in STD:
+        mods[m] = syparse.read_module(F.read(os.path.join("std", m + ".sy")))
+    declared_purity(rep, lua, mods)
 
 
 def library_typing(F, rep):
@@ -311,6 +321,44 @@ def externals_fully_typed(F, rep, mods):
                            "payload, so `case %s(..) do Just c -> c + \"x\" ..` is accepted whatever the Lua function really returns"
                            % (name, base, "s" if arity[base] > 1 else "", name), "std/%s.sy" % mname)
     rep.floor("EXTERNALS", "generic library types in external signatures", n, 10)
+
+
+def declared_purity(rep, lua, mods, rule="PURITY-DECL"):
+    """`pu` on an external is a promise the checker cannot look behind: pure functions may call it, on constants too.  The Lua
+    definition of an external declared `pu` must not store into a table it was given (`l[i] = v`, table.insert(l, ..)); printing
+    is not counted (`dbg` is declared pure on purpose, as a tracing aid).  (The other direction - a harmless function declared `fn` - only costs convenience.)"""
+    n = 0
+    for mname in sorted(mods):
+        for name, types in sorted(mods[mname]["externals"].items()):
+            g = lua.globals.get(name)
+            if not g or g[0] != "function":
+                continue
+            pure = [t for t in types if t[0] == "fn" and t[1]]
+            if not pure:
+                continue
+            f = g[1]
+            n += 1
+            params = set(f["params"])
+            bad = []
+            for x in luaparse.walk(f["body"]):
+                if x.get("k") == "Assign":
+                    for t in x["targets"]:
+                        base = t
+                        while base.get("k") == "Index":
+                            base = base["obj"]
+                        if t.get("k") == "Index" and base.get("k") == "Name" and base["name"] in params:
+                            bad.append("stores into its argument (`%s = ..`)" % luaparse.show(t))
+                elif x.get("k") == "Call":
+                    fn_ = luaparse.show(x["f"])
+                    if fn_ in ("table.insert", "table.remove", "table.sort") and x["args"] and \
+                            x["args"][0].get("k") == "Name" and x["args"][0]["name"] in params:
+                        bad.append("calls %s on its argument" % fn_)
+            rep.ob(rule, "%s.%s|pu" % (mname, name), not bad,
+                   "%s is declared `pu` and its Lua definition does not store into its arguments" % name if not bad else
+                   "%s is declared `pu` but its Lua definition %s: a pure function can change a (constant) list through it - "
+                   "`bump :: pu xs: [int] -> int do list.set(xs, 0, get(xs, 0) + 1) .. end` gives 1, then 2" % (name, "; ".join(sorted(set(bad)))),
+                   "std/%s.sy" % mname)
+    rep.floor(rule, "externals declared pu with a Lua definition", n, 15)
 
 
 def keyed_table_size(rep, lua, mods):
@@ -619,6 +667,31 @@ def index_bounds(rep, lua):
                    "%s guards its access with `%s`; valid indices rejected (length, index): %s" % (name, luaparse.show(cond), bad or "none"),
                    "sylt-compiler/src/preamble.lua:%s" % st.get("line"))
         rep.ob("INDEX-BOUNDS", "%s|census" % name, True, "%d index guard(s) in %s evaluated at both ends of the valid range" % (n_guards, name), sites=n_guards)
+
+
+def random_interval(rep, lua, rule="INDEX-BOUNDS"):
+    """math.random(m, n) raises `interval is empty` when n < m: an interval that ends at `#l - 1` is empty for the empty list,
+    so the call sits under a test of the list's length (the declared result is a Maybe: the empty list has an answer)"""
+    n = 0
+    for name, g in sorted(lua.globals.items()):
+        if g[0] != "function":
+            continue
+        f = g[1]
+        for x in luaparse.walk(f["body"]):
+            if x.get("k") == "Call" and luaparse.show(x["f"]) == "math.random" and len(x["args"]) == 2:
+                hi = luaparse.show(x["args"][1])
+                ps = [p_ for p_ in f["params"] if "#%s" % p_ in hi]
+                if not ps:
+                    continue
+                n += 1
+                guarded = any(i.get("k") == "If" and any(c is not None and "#%s" % ps[0] in luaparse.show(c) for c, _ in i["clauses"])
+                              and (i.get("line") or 0) <= (x.get("line") or 0) for i in luaparse.walk(f["body"]))
+                rep.ob(rule, "%s|random-interval-not-empty" % name, guarded,
+                       "%s draws from 0..#%s-1 only after looking at the length" % (name, ps[0]) if guarded else
+                       "%s calls math.random(%s, %s) without looking at the length of `%s`: for the empty list the interval is empty and "
+                       "Lua raises an error, although the function is declared to answer a Maybe" % (
+                           name, luaparse.show(x["args"][0]), hi, ps[0]), "sylt-compiler/src/preamble.lua:%s" % x.get("line"))
+    rep.ob(rule, "random-intervals|census", True, "%d math.random(m, n) calls with a bound taken from a list's length" % n, sites=n)
 
 
 def held_across_callback(rep, lua, leaks, rule="GLOBAL-LEAK"):
